@@ -1,9 +1,273 @@
 import WM.Proto
+import WM.Spec.Codec
+import WM.Spec.CodecIndex
 namespace WM.Drv.C10
-open WM.Proto
+open WM.Proto WM.Codec
 
-/-- Protocol handler of family `c10` (requests arrive without the family token). -/
-def handle : List SExp → String
+/-! Protocol handler of family `c10` (requests arrive without the family token).
+
+`write KIND BL COMP INL FS (POSTING*)`            → `ok (blocks …) (ti …)` | `err NAME`
+`run   KIND BL COMP INL FS (POSTING*) (OP*)`      → `(r1 r2 …)`, one result per op
+`spec  KIND FS (POSTING*)`                        → expected entries and aggregates (Layer S)
+KIND is `doc` (ids are integers) or `term` (ids are hex-encoded UTF-8 texts); FS is `none` or a size;
+POSTING is `(id weight valuehex length|none)`. -/
+
+/-- Wire format of ids for the two kinds. -/
+structure Wire (ι μ : Type) where
+  kind : IdKind ι μ
+  parseId : SExp → Option ι
+  showId : ι → String
+  showMini : μ → String
+
+def hexToString? (s : String) : Option String := do
+  let bs ← hexBytes? s
+  String.fromUTF8? (ByteArray.mk (bs.map (·.toUInt8)).toArray)
+
+def stringToHex (s : String) : String := showHex (s.toUTF8.toList.map (·.toNat))
+
+def docWire : Wire Int (List Int) :=
+  { kind := docIds, parseId := SExp.int?, showId := toString, showMini := showIntList }
+
+def termWire : Wire String (List String) :=
+  { kind := termIds, parseId := fun e => e.atom? >>= hexToString?, showId := stringToHex
+    showMini := showList stringToHex }
+
+variable {ι μ : Type}
+
+def parsePosting (w : Wire ι μ) : SExp → Option (Posting ι)
+  | .list [i, wt, .atom v, l] => do
+    let id ← w.parseId i
+    let weight ← wt.rat?
+    let value ← hexBytes? v
+    let length ← SExp.opt? SExp.nat? l
+    pure { id, weight, value, length }
+  | _ => none
+
+def parseCfg (w : Wire ι μ) (bl comp inl fs : SExp) : Option (Cfg ι μ) := do
+  let blocklimit ← bl.nat?
+  let compression ← comp.nat?
+  let inlinelimit ← inl.nat?
+  let fixedsize ← SExp.opt? SExp.nat? fs
+  pure { ids := w.kind, f32 := id, blocklimit, compression, inlinelimit, fixedsize }
+
+def showMiniW : MiniW → String
+  | .allOnes => "ones"
+  | .const x => s!"(const {showRat x})"
+  | .each ws => "(each " ++ " ".intercalate (ws.map showRat) ++ ")"
+
+def showMiniV : MiniV → String
+  | .none => "none"
+  | .tuple vs => "(tuple " ++ " ".intercalate (vs.map showHex) ++ ")"
+  | .joined bs => s!"(joined {showHex bs})"
+
+def showBlock (w : Wire ι μ) (b : DiskBlock ι μ) : String :=
+  s!"({showBool b.last} {b.info.count} {w.showId b.info.lastId} {showRat b.info.maxWeight} " ++
+  s!"{b.info.comp} {b.info.minLenByte} {b.info.maxLenByte} {w.showMini b.mids} {showMiniW b.mw} {showMiniV b.mv})"
+
+def showTI (w : Wire ι μ) (t : TermInfo ι) : String :=
+  let inl := match t.inlined with
+    | none => "none"
+    | some (ids, ws, vs) =>
+      s!"({showList w.showId ids} {showList showRat ws} {showList showHex vs})"
+  s!"(ti {showRat t.weight} {t.df} {showOpt toString t.minlength} {t.maxlength} {showRat t.maxweight} " ++
+  s!"{showOpt w.showId t.minid} {showOpt w.showId t.maxid} {showOpt toString t.extent} {inl})"
+
+def showEntry (w : Wire ι μ) (e : Entry ι) : String :=
+  s!"({w.showId e.id} {showRat e.weight} {showOpt showHex e.value})"
+
+def doWrite (w : Wire ι μ) (c : Cfg ι μ) (ps : List (Posting ι)) : String :=
+  match writeTerm c ps with
+  | .error e => s!"err {e.name}"
+  | .ok (blocks, ti) => s!"ok (blocks {" ".intercalate (blocks.map (showBlock w))}) {showTI w ti}"
+
+/-- Cursor programs. -/
+inductive Op (ι : Type) where
+  | next | id | weight | value | active | skipTo (t : ι) | skipQ (q : Rat) | maxId | info | copyNext
+
+def parseOp (w : Wire ι μ) : SExp → Option (Op ι)
+  | .atom "next" => some .next
+  | .atom "id" => some .id
+  | .atom "weight" => some .weight
+  | .atom "value" => some .value
+  | .atom "active" => some .active
+  | .atom "maxid" => some .maxId
+  | .atom "info" => some .info
+  | .atom "copynext" => some .copyNext
+  | .list [.atom "skip", t] => (w.parseId t).map .skipTo
+  | .list [.atom "skipq", q] => q.rat?.map .skipQ
+  | _ => none
+
+def showExcept {α} (f : α → String) : Except Err α → String
+  | .ok a => f a
+  | .error e => s!"!{e.name}"
+
+/-- Run a program on a block cursor; a raised exception leaves the cursor where it was. -/
+def runOps (w : Wire ι μ) (fs : Option Nat) : Leaf ι μ → List (Op ι) → List String
+  | _, [] => []
+  | m, op :: ops =>
+    match op with
+    | .next => match m.next with
+      | .ok (m', b) => showBool b :: runOps w fs m' ops
+      | .error e => s!"!{e.name}" :: runOps w fs m.nextRaised ops
+    | .id => showExcept w.showId (m.id w.kind) :: runOps w fs m ops
+    | .weight => showExcept showRat m.weight :: runOps w fs m ops
+    | .value => showExcept (showOpt showHex) (m.value fs) :: runOps w fs m ops
+    | .active => showBool m.isActive :: runOps w fs m ops
+    | .maxId => w.showId m.blockMaxId :: runOps w fs m ops
+    | .info => s!"({m.cur.info.count} {showRat m.cur.info.maxWeight} {m.cur.info.minLenByte} {m.cur.info.maxLenByte})"
+        :: runOps w fs m ops
+    | .copyNext =>
+      -- `c = m.copy(); c.next()`: the copy moves, the original does not
+      let c := match m.next with
+        | .ok (m', _) => m'
+        | .error _ => m.nextRaised
+      s!"({showExcept w.showId (m.id w.kind)} {showExcept w.showId (c.id w.kind)} {showBool c.isActive})"
+        :: runOps w fs m ops
+    | .skipTo t => match m.skipTo w.kind t with
+      | .ok m' => "ok" :: runOps w fs m' ops
+      | .error e => s!"!{e.name}" :: runOps w fs m ops
+    | .skipQ q => match m.skipToQuality (fun i => i.maxWeight) q with
+      | .ok (m', n) => toString n :: runOps w fs m' ops
+      | .error e => s!"!{e.name}" :: runOps w fs m ops
+
+/-- Programs on inlined postings run on `ListMatcher`, which the matcher family models; here only
+    the read-out of the inlined tuple is mirrored. -/
+def doRun (w : Wire ι μ) (c : Cfg ι μ) (ps : List (Posting ι)) (ops : List (Op ι)) : String :=
+  match writeTerm c ps with
+  | .error e => s!"err {e.name}"
+  | .ok (blocks, ti) =>
+    match ti.inlined with
+    | some (ids, ws, vs) =>
+      let vals := (List.range ids.length).map fun i => showExcept showHex (inlinedValue vs i)
+      s!"inlined {showList w.showId ids} {showList showRat ws} {showList id vals}"
+    | none =>
+      match Leaf.open blocks with
+      | .error e => s!"open-err {e.name}"
+      | .ok m => showList id (runOps w c.fixedsize m ops)
+
+def doSpec (w : Wire ι μ) (c : Cfg ι μ) (ps : List (Posting ι)) : String :=
+  let (cs, rem) := split c.blocklimit ps
+  s!"(entries {" ".intercalate ((ps.map (expected c)).map (showEntry w))}) " ++
+  s!"(agg {ps.length} {showRat (sumW c.f32 ps)} {showOpt toString (minLen ps)} {maxLen ps} {showRat (maxW c.f32 ps)} " ++
+  s!"{showOpt w.showId (ps.head?.map (·.id))} {showOpt w.showId (ps.getLast?.map (·.id))}) " ++
+  s!"(chunks {showNatList ((cs ++ [rem]).map List.length)})"
+
+def withKind (kind : SExp) (f : {ι μ : Type} → Wire ι μ → String) : String :=
+  match kind with
+  | .atom "doc" => f docWire
+  | .atom "term" => f termWire
   | _ => "bad-op"
+
+/-! ### formats and document-level spec
+
+`wv FMT FB (TOKEN*)`                       → model `word_values` + all decoders per term
+`index FMT VFMT FB SCORABLE (DOC*)`        → Layer S: posting list of every term, vector of every doc
+FMT ∈ existence|frequency|positions|characters|positionboosts|characterboosts,
+TOKEN = `(texthex pos startchar endchar boost)`, DOC = `(docnum boost (TOKEN*))`. -/
+
+def parseFmt : SExp → Option Fmt
+  | .atom "existence" => some .existence
+  | .atom "frequency" => some .frequency
+  | .atom "positions" => some .positions
+  | .atom "characters" => some .characters
+  | .atom "positionboosts" => some .positionBoosts
+  | .atom "characterboosts" => some .characterBoosts
+  | _ => none
+
+def parseToken : SExp → Option Token
+  | .list [.atom t, p, s, e, b] => do
+    let text ← hexToString? t
+    let pos ← p.int?
+    let startchar ← s.int?
+    let endchar ← e.int?
+    let boost ← b.rat?
+    pure { text, pos, startchar, endchar, boost }
+  | _ => none
+
+def parseDoc : SExp → Option DocIn
+  | .list [n, b, .list toks] => do
+    let docnum ← n.int?
+    let boost ← b.rat?
+    let toks ← toks.mapM parseToken
+    pure { docnum, boost, toks }
+  | _ => none
+
+def showTriple (x : Int × Int × Int) : String := s!"({x.1} {x.2.1} {x.2.2})"
+def showPB (x : Int × Rat) : String := s!"({x.1} {showRat x.2})"
+def showCB (x : Int × Int × Int × Rat) : String := s!"({x.1} {x.2.1} {x.2.2.1} {showRat x.2.2.2})"
+
+def showFValue : FValue → String
+  | .empty => "empty"
+  | .freq n => s!"(freq {n})"
+  | .positions n ds => s!"(pos {n} {showIntList ds})"
+  | .chars n cs => s!"(chars {n} {showList showTriple cs})"
+  | .posBoosts n sm cs => s!"(pb {n} {showRat sm} {showList showPB cs})"
+  | .charBoosts n sm cs => s!"(cb {n} {showRat sm} {showList showCB cs})"
+
+def showDecoded (v : FValue) : String :=
+  s!"({showOpt toString (decodeFrequency v)} {showOpt showIntList (decodePositions v)} " ++
+  s!"{showOpt (showList showTriple) (decodeCharacters v)} {showOpt (showList showPB) (decodePositionBoosts v)} " ++
+  s!"{showOpt (showList showCB) (decodeCharacterBoosts v)})"
+
+def doWv (fmt : Fmt) (fb : Rat) (toks : List Token) : String :=
+  let items := (wordValues id fmt fb toks).mergeSort (fun a b => decide (a.1 ≤ b.1))
+  showList (fun x => s!"({stringToHex x.1} {x.2.1} {showRat x.2.2.1} {showFValue x.2.2.2} {showDecoded x.2.2.2})")
+    items
+
+def showPSpec (p : PostingSpec) : String :=
+  s!"{p.freq} {showRat p.weight} {showIntList p.positions} {showList showTriple p.chars} {showList showRat p.boosts}"
+
+def fieldLength (fmt : Fmt) (toks : List Token) : Nat :=
+  ((distinctTexts toks).map fun w => (postingSpec fmt 1 (occ toks w)).freq).foldl (· + ·) 0
+
+def doIndex (fmt vfmt : Fmt) (fb : Rat) (docs : List DocIn) : String :=
+  let terms := ((docs.foldl (fun l d => (distinctTexts d.toks).foldl insertNew l) []).mergeSort
+    (fun a b => decide (a ≤ b)))
+  let posts := terms.map fun w =>
+    s!"({stringToHex w} {showList (fun x => s!"({x.1} {showPSpec x.2})") (specPostings fmt fb docs w)})"
+  let vecs := docs.map fun d =>
+    s!"({d.docnum} {fieldLength fmt d.toks} {showList (fun x => s!"({stringToHex x.1} {showPSpec x.2})")
+      (specVector vfmt fb d.toks)})"
+  s!"(postings {" ".intercalate posts}) (docs {" ".intercalate vecs})"
+
+def handleFmt : List SExp → Option String
+  | [.atom "wv", fmt, fb, .list toks] => do
+    let fmt ← parseFmt fmt
+    let fb ← fb.rat?
+    let toks ← toks.mapM parseToken
+    pure (doWv fmt fb toks)
+  | [.atom "index", fmt, vfmt, fb, .list docs] => do
+    let fmt ← parseFmt fmt
+    let vfmt ← parseFmt vfmt
+    let fb ← fb.rat?
+    let docs ← docs.mapM parseDoc
+    pure (doIndex fmt vfmt fb docs)
+  | _ => none
+
+def handle : List SExp → String
+  | [.atom "write", kind, bl, comp, inl, fs, .list ps] =>
+    withKind kind fun w =>
+      match parseCfg w bl comp inl fs, ps.mapM (parsePosting w) with
+      | some c, some ps => doWrite w c ps
+      | _, _ => "bad-op"
+  | [.atom "run", kind, bl, comp, inl, fs, .list ps, .list ops] =>
+    withKind kind fun w =>
+      match parseCfg w bl comp inl fs, ps.mapM (parsePosting w), ops.mapM (parseOp w) with
+      | some c, some ps, some ops => doRun w c ps ops
+      | _, _, _ => "bad-op"
+  | [.atom "spec", kind, bl, fs, .list ps] =>
+    withKind kind fun w =>
+      match parseCfg w bl (.atom "0") (.atom "0") fs, ps.mapM (parsePosting w) with
+      | some c, some ps => doSpec w c ps
+      | _, _ => "bad-op"
+  | [.atom "l2b", n] =>
+    match SExp.opt? SExp.nat? n with
+    | some l => toString (lengthToByte l)
+    | none => "bad-op"
+  | [.atom "b2l", n] =>
+    match n.nat? with
+    | some b => showOpt toString (byteToLength b)
+    | none => "bad-op"
+  | other => (handleFmt other).getD "bad-op"
 
 end WM.Drv.C10
